@@ -5,10 +5,13 @@ From Coq Require Import ZArith QArith List Bool.
 From Centro Require Import Base.Sx Base.ThresholdNum Model.ThresholdLang Gen.ThresholdC11.
 Import ListNotations.
 
-(* arg: (modifier cf raw_global lo? hi? raw_local lab0?) -> () when the call raises, else (local global) *)
+(* arg: (modifier cf raw_global lo? hi? raw_local lab0? f32) -> () when the call raises, else (local global);
+   f32 = 1 when the local-threshold array is float32 (per-object mode on a float32 image) *)
 Definition entry_run (x : sx) : sx :=
   let inp := mkIn (as_modifier (arg 0 x)) (as_Q (arg 1 x)) (as_Q (arg 2 x)) (as_Qs (arg 5 x)) (as_lab0 (arg 6 x)) in
-  match run fmul inp get_threshold_prog (as_optQ (arg 3 x)) (as_optQ (arg 4 x)) with
+  let f32 := as_bool (arg 7 x) in
+  match run fmul (if f32 then fmul32 else fmul) (if f32 then round32 else (fun q => q)) inp get_threshold_prog
+          (as_optQ (arg 3 x)) (as_optQ (arg 4 x)) with
   | Some (l, g) => L [of_val l; of_val g]
   | None => L []
   end.
